@@ -86,6 +86,26 @@ Proof.
     constructor; [assumption| now apply IH].
 Qed.
 
+Lemma Forall2_imp {A B} (P Q : A -> B -> Prop) l l' :
+  Forall2 P l l' -> (forall x y, P x y -> Q x y) -> Forall2 Q l l'.
+Proof. intros F H. induction F; constructor; auto. Qed.
+
+Lemma Forall2_in_l {A B} (P : A -> B -> Prop) l l' x :
+  Forall2 P l l' -> In x l -> exists y, In y l' /\ P x y.
+Proof.
+  intros F. induction F as [|a b l l' H F IH]; intros Hx; [destruct Hx|].
+  destruct Hx as [<-|Hx]; [exists b; split; [now left|assumption]|].
+  destruct (IH Hx) as (y & Hy & Py). exists y. split; [now right|assumption].
+Qed.
+
+Lemma Forall2_in_r {A B} (P : A -> B -> Prop) l l' y :
+  Forall2 P l l' -> In y l' -> exists x, In x l /\ P x y.
+Proof.
+  intros F. induction F as [|a b l l' H F IH]; intros Hy; [destruct Hy|].
+  destruct Hy as [<-|Hy]; [exists a; split; [now left|assumption]|].
+  destruct (IH Hy) as (x & Hx & Px). exists x. split; [now right|assumption].
+Qed.
+
 (* ------------------------------------------------------------ the DFS, generic facts *)
 
 Section DFS.
@@ -454,3 +474,239 @@ Proof.
 Qed.
 
 End DFS.
+
+(* ------------------------------------------------------------ Roots() *)
+
+Lemma reach_mono (f g : nat -> list nat) a b :
+  (forall x d, In d (f x) -> reach g x d) -> reach f a b -> reach g a b.
+Proof.
+  intros H. induction 1 as [x|x d y Hd _ IH]; [apply reach_refl|].
+  eapply reach_trans; [apply H; exact Hd| exact IH].
+Qed.
+
+Section Roots.
+Variable n : nat.
+Variable deps : nat -> list nat.
+Variable regs : list nat.
+Hypothesis Hdeps : forall x d, In d (deps x) -> d < n.
+Hypothesis Hregs : forall r, In r regs -> r < n.
+
+Let fuel := depth_fuel n.
+
+Lemma fuel_eq : fuel = S (S (2 * length (seq 0 n))).
+Proof. unfold fuel, depth_fuel. now rewrite seq_length. Qed.
+
+Lemma in_U x : In x (seq 0 n) <-> x < n.
+Proof. rewrite in_seq. lia. Qed.
+
+Lemma reach_lt a b : a < n -> reach deps a b -> b < n.
+Proof. intros Ha H. induction H as [x|x d y Hd _ IH]; [assumption|]. apply IH. eapply Hdeps; eauto. Qed.
+
+Lemma pass1_some r : r < n -> exists s, sort_deps fuel deps r = Some s.
+Proof.
+  intro Hr. rewrite fuel_eq. apply sort_deps_fuel.
+  - intros x d Hd. apply in_U. eapply Hdeps; eauto.
+  - now apply in_U.
+Qed.
+
+Definition entry_ok (r : nat) (p : nat * list nat) : Prop :=
+  exists s, sort_deps fuel deps r = Some s /\ p = (r, rev s).
+
+Lemma flat_table_ok : exists tbl, flat_table fuel deps regs = Some tbl /\ Forall2 entry_ok regs tbl.
+Proof.
+  unfold flat_table.
+  destruct (sequence_map_some (fun r => option_map (fun s => (r, rev s)) (sort_deps fuel deps r)) regs) as (tbl & E & F).
+  - intros r Hr. destruct (pass1_some r (Hregs r Hr)) as [s ->]. simpl. eauto.
+  - exists tbl. split; [exact E|].
+    eapply Forall2_imp; [exact F|]. intros r p H. cbv beta in H.
+    destruct (sort_deps fuel deps r) as [s|] eqn:Es; [|discriminate]. simpl in H. injection H as <-.
+    exists s. split; [assumption|reflexivity].
+Qed.
+
+Lemma flat_table_inv tbl : flat_table fuel deps regs = Some tbl -> Forall2 entry_ok regs tbl.
+Proof.
+  intro E. destruct flat_table_ok as (tbl' & E' & F). congruence.
+Qed.
+
+Lemma lookup_in_gen l t r : Forall2 entry_ok l t -> In r l ->
+  exists s, sort_deps fuel deps r = Some s /\ lookup t r = rev s.
+Proof.
+  intro F. induction F as [|r0 p l l' H F IH]; intro Hr; [destruct Hr|].
+  destruct H as (s0 & Es0 & ->). unfold lookup. cbn [find fst].
+  destruct (Nat.eqb r0 r) eqn:E.
+  - apply Nat.eqb_eq in E. subst. exists s0. split; [assumption|reflexivity].
+  - destruct Hr as [->|Hr]; [rewrite Nat.eqb_refl in E; discriminate|].
+    apply IH. exact Hr.
+Qed.
+
+Lemma lookup_notin_gen l t r : Forall2 entry_ok l t -> ~ In r l -> lookup t r = [].
+Proof.
+  intro F. induction F as [|r0 p l l' H F IH]; intro Hr; [reflexivity|].
+  destruct H as (s0 & Es0 & ->). unfold lookup. cbn [find fst].
+  destruct (Nat.eqb r0 r) eqn:E.
+  - apply Nat.eqb_eq in E. subst. exfalso. apply Hr. now left.
+  - apply IH. intro X. apply Hr. now right.
+Qed.
+
+Section Table.
+Variable tbl : list (nat * list nat).
+Hypothesis Htbl : Forall2 entry_ok regs tbl.
+
+Let rd := lookup tbl.
+
+Lemma lookup_in r : In r regs -> exists s, sort_deps fuel deps r = Some s /\ rd r = rev s.
+Proof. apply lookup_in_gen. exact Htbl. Qed.
+
+Lemma lookup_notin r : ~ In r regs -> rd r = [].
+Proof. apply lookup_notin_gen. exact Htbl. Qed.
+
+Lemma rd_reach r : In r regs -> forall y, In y (rd r) <-> reach deps r y.
+Proof.
+  intros Hr y. destruct (lookup_in r Hr) as (s & Es & ->). rewrite <- in_rev.
+  apply (sort_deps_spec deps _ _ _ Es).
+Qed.
+
+Lemma rd_edge x d : In d (rd x) -> In x regs /\ reach deps x d.
+Proof.
+  intro H. destruct (in_dec Nat.eq_dec x regs) as [Hx|Hx].
+  - split; [assumption|]. now apply rd_reach.
+  - rewrite (lookup_notin x Hx) in H. destruct H.
+Qed.
+
+Lemma rd_lt x d : In d (rd x) -> d < n.
+Proof. intro H. apply rd_edge in H as [Hx H]. eapply reach_lt; [apply Hregs; exact Hx| exact H]. Qed.
+
+Lemma reach_rd_deps a b : reach rd a b -> reach deps a b.
+Proof. apply reach_mono. intros x d Hd. now apply rd_edge in Hd as [_ Hd]. Qed.
+
+Lemma reach_rd_cases a b : reach rd a b -> a = b \/ (In a regs /\ reach deps a b).
+Proof.
+  intro H. destruct H as [x|x d y Hd H]; [now left|]. right.
+  split; [now apply rd_edge in Hd as [Hx _]|].
+  apply reach_rd_deps. eapply reach_step; eauto.
+Qed.
+
+Lemma tbl_map : tbl = map (fun r => (r, rd r)) regs.
+Proof.
+  assert (G : forall l l', Forall2 entry_ok l l' -> (forall r, In r l -> In r regs) ->
+            l' = map (fun r => (r, rd r)) l).
+  { induction 1 as [|r p l l' H F IH]; intro Hin; [reflexivity|]. simpl. f_equal.
+    - destruct H as (s & Es & ->). destruct (lookup_in r (Hin r (or_introl eq_refl))) as (s' & Es' & ->).
+      congruence.
+    - apply IH. intros r' Hr'. apply Hin. now right. }
+  apply G; [exact Htbl| auto].
+Qed.
+
+Lemma mutual_spec : mutual tbl = true <->
+  exists u v, In u regs /\ In v regs /\ u <> v /\ reach deps u v /\ reach deps v u.
+Proof.
+  unfold mutual. rewrite existsb_exists. split.
+  - intros (p & Hp & H). apply existsb_exists in H as (q & Hq & H).
+    rewrite tbl_map in Hp, Hq. apply in_map_iff in Hp as (u & <- & Hu). apply in_map_iff in Hq as (v & <- & Hv).
+    cbn [fst snd] in H. apply andb_true_iff in H as [H H3]. apply andb_true_iff in H as [H1 H2].
+    apply negb_true_iff, Nat.eqb_neq in H1. apply memb_In in H2, H3.
+    exists u, v. repeat split; try assumption; [now apply rd_reach in H2| now apply rd_reach in H3].
+  - intros (u & v & Hu & Hv & Hne & H1 & H2).
+    exists (u, rd u). split; [rewrite tbl_map; apply in_map_iff; eauto|].
+    apply existsb_exists. exists (v, rd v). split; [rewrite tbl_map; apply in_map_iff; eauto|].
+    cbn [fst snd]. apply andb_true_iff. split; [apply andb_true_iff; split|].
+    + apply negb_true_iff, Nat.eqb_neq. exact Hne.
+    + apply memb_In. now apply rd_reach.
+    + apply memb_In. now apply rd_reach.
+Qed.
+
+Lemma pass2_some r : r < n -> exists s, sort_deps fuel rd r = Some s.
+Proof.
+  intro Hr. rewrite fuel_eq. apply sort_deps_fuel.
+  - intros x d Hd. apply in_U. eapply rd_lt; eauto.
+  - now apply in_U.
+Qed.
+
+Lemma pass2_ok : exists ss, sequence (map (sort_deps fuel rd) regs) = Some ss /\
+  Forall2 (fun r s => sort_deps fuel rd r = Some s) regs ss.
+Proof. apply sequence_map_some. intros r Hr. apply pass2_some. now apply Hregs. Qed.
+
+(* no cycle among registered roots: the graph of flattened lists has only self loops *)
+Hypothesis no_self : self_dep deps regs = false.
+Hypothesis no_mutual : mutual tbl = false.
+
+Lemma self_dep_spec : self_dep deps regs = true <-> exists r, In r regs /\ In r (deps r).
+Proof.
+  unfold self_dep. rewrite existsb_exists. split; intros (r & Hr & H); exists r; (split; [assumption|]); now apply memb_In.
+Qed.
+
+Lemma rd_anti a b : reach rd a b -> reach rd b a -> a = b.
+Proof.
+  intros H1 H2. destruct (Nat.eq_dec a b) as [E|Hne]; [assumption|exfalso].
+  destruct (reach_rd_cases _ _ H1) as [E|[Ha R1]]; [contradiction|].
+  destruct (reach_rd_cases _ _ H2) as [E|[Hb R2]]; [congruence|].
+  assert (mutual tbl = true) as X by (apply mutual_spec; exists a, b; auto). congruence.
+Qed.
+
+Lemma roots_result ss :
+  Forall2 (fun r s => sort_deps fuel rd r = Some s) regs ss ->
+  NoDup (merge_first ss) /\ incl regs (merge_first ss) /\
+  (forall x, In x (merge_first ss) -> exists r, In r regs /\ reach deps r x) /\
+  (forall u v, In u regs -> reach deps u v -> u <> v ->
+     forall l1 l2, merge_first ss = l1 ++ u :: l2 -> In v l1).
+Proof.
+  intros F.
+  assert (Hord : forall s, In s ss -> ordered rd s).
+  { intros s Hs. destruct (Forall2_in_r _ _ _ _ F Hs) as (r & _ & H).
+    apply (sort_deps_ordered rd rd_anti _ _ _ H). }
+  pose proof (merge_fold rd ss [] Hord (NoDup_nil _) (ordered_nil rd)) as M.
+  unfold merge_post in M. fold (merge_first ss) in M. destruct M as (A & B & _ & D & G).
+  split; [exact A|]. split; [|split].
+  - intros r Hr. destruct (Forall2_in_l _ _ _ _ F Hr) as (s & Hs & Es).
+    apply (D s Hs). apply (sort_deps_ordered rd rd_anti _ _ _ Es).
+  - intros x Hx. destruct (G x Hx) as [[]|(s & Hs & Hxs)].
+    destruct (Forall2_in_r _ _ _ _ F Hs) as (r & Hr & Es).
+    exists r. split; [assumption|]. apply reach_rd_deps. now apply (sort_deps_spec rd _ _ _ Es).
+  - intros u v Hu Huv Hne l1 l2 El. eapply B; [exact El| |congruence].
+    now apply rd_reach.
+Qed.
+End Table.
+
+Theorem roots_no_out_of_fuel : roots n deps regs <> OutOfFuel.
+Proof.
+  unfold roots. fold fuel. destruct (self_dep deps regs); [discriminate|].
+  destruct flat_table_ok as (tbl & -> & F).
+  destruct (mutual tbl); [discriminate|].
+  destruct (pass2_ok tbl F) as (ss & -> & _). discriminate.
+Qed.
+
+Theorem roots_cycle_spec : roots n deps regs = Cycle <->
+  (exists r, In r regs /\ In r (deps r)) \/
+  (exists u v, In u regs /\ In v regs /\ u <> v /\ reach deps u v /\ reach deps v u).
+Proof.
+  unfold roots. fold fuel. destruct flat_table_ok as (tbl & E & F). rewrite E.
+  destruct (self_dep deps regs) eqn:Es.
+  - split; [intros _; left; now apply self_dep_spec| reflexivity].
+  - destruct (mutual tbl) eqn:Em.
+    + split; [intros _; right; now apply (mutual_spec tbl F)| reflexivity].
+    + destruct (pass2_ok tbl F) as (ss & -> & _). split; [discriminate|].
+      intros [H|H]; [apply self_dep_spec in H| apply (mutual_spec tbl F) in H]; congruence.
+Qed.
+
+Theorem roots_ok_spec l : roots n deps regs = Ok l ->
+  NoDup l /\ incl regs l /\
+  (forall x, In x l -> exists r, In r regs /\ reach deps r x) /\
+  (forall u v, In u regs -> reach deps u v -> u <> v ->
+     forall l1 l2, l = l1 ++ u :: l2 -> In v l1).
+Proof.
+  unfold roots. fold fuel. destruct flat_table_ok as (tbl & E & F). rewrite E.
+  destruct (self_dep deps regs) eqn:Es; [discriminate|].
+  destruct (mutual tbl) eqn:Em; [discriminate|].
+  destruct (pass2_ok tbl F) as (ss & E2 & F2). rewrite E2. intros [= <-].
+  apply (roots_result tbl F Em ss F2).
+Qed.
+
+Theorem roots_complete_spec :
+  exists tbl, flat_table fuel deps regs = Some tbl /\
+    forall r, In r regs -> forall y, In y (lookup tbl r) <-> reach deps r y.
+Proof.
+  destruct flat_table_ok as (tbl & E & F). exists tbl. split; [exact E|].
+  intros r Hr y. now apply rd_reach.
+Qed.
+
+End Roots.
